@@ -12,7 +12,8 @@ import runner  # noqa: E402
 import ledger_scen  # noqa: E402
 
 PROP_FILE = "Props/C20.v"
-THEOREMS = ["C20_no_accumulation", "C20_released_owns_nothing", "C20_exits_release", "C20_abstraction_sound", "C20_structure"]
+THEOREMS = ["C20_no_accumulation", "C20_released_owns_nothing", "C20_exits_release", "C20_abstraction_sound", "C20_structure",
+            "C20_forced_shutdown_ends_the_feeder_thread"]
 ASSUME = [
     "an object that no thread, no registry and no user reference reaches is collected, and its descriptors / semaphores go with it "
     "(CPython reference counting + gc; measured, not proved)",
@@ -21,8 +22,8 @@ ASSUME = [
     "counts are taken after the feeder thread, which is told to stop but not joined in the creating process, has ended",
 ]
 ALL = ["plain", "with", "nowait", "kill", "broken_exit", "broken_kill", "timeout", "gc", "never_started", "errors",
-       "reusable_resize", "reusable_broken", "reusable_timeout", "nested", "nested_kill"]
-QUICK = ["plain", "nowait", "kill", "nested_kill", "broken_exit", "gc", "never_started", "reusable_resize", "reusable_broken"]
+       "reusable_resize", "reusable_broken", "reusable_timeout", "nested", "nested_kill", "kill_bigargs", "broken_bigargs"]
+QUICK = ["plain", "nowait", "kill", "kill_bigargs", "broken_bigargs", "nested_kill", "broken_exit", "gc", "never_started", "reusable_resize", "reusable_broken"]
 
 
 def model_ledgers(hists, psutil):
